@@ -40,44 +40,117 @@ Qed.
 
 (* ------------------------------------------------------------------ output table *)
 
-Lemma get_save_same l x : get_out (save_out l x) (r_key x) (r_mmr x) = Some x.
+Definition okey (o : orec) : kid * option N := (r_key o, r_mmr o).
+
+Lemma get_replace l x k m :
+  get_out (replace_out l x) k m
+  = match get_out l (r_key x) (r_mmr x) with
+    | Some _ => if okey_eqb x k m then Some x else get_out l k m
+    | None => get_out l k m
+    end.
 Proof.
-  induction l as [|o r IH]; cbn [save_out get_out].
-  - assert (E : okey_eqb x (r_key x) (r_mmr x) = true) by (apply okey_eqb_iff; split; reflexivity).
-    now rewrite E.
-  - destruct (okey_eqb o (r_key x) (r_mmr x)) eqn:E1.
-    + cbn [get_out]. assert (E : okey_eqb x (r_key x) (r_mmr x) = true) by (apply okey_eqb_iff; split; reflexivity).
-      now rewrite E.
-    + destruct (okey_ltb _ _ _ _); cbn [get_out].
-      * assert (E : okey_eqb x (r_key x) (r_mmr x) = true) by (apply okey_eqb_iff; split; reflexivity).
-        now rewrite E.
-      * now rewrite E1.
+  induction l as [|o r IH]; cbn [replace_out get_out]; [reflexivity|].
+  destruct (okey_eqb o (r_key x) (r_mmr x)) eqn:E1; cbn [get_out].
+  - destruct (okey_eqb x k m) eqn:E2; [reflexivity|].
+    apply okey_eqb_iff in E1 as [E1a E1b].
+    assert (okey_eqb o k m = false).
+    { apply okey_eqb_false. intros [H1 H2]. apply okey_eqb_false in E2. apply E2. split; congruence. }
+    now rewrite H.
+  - rewrite IH. destruct (get_out r (r_key x) (r_mmr x)) eqn:Eg.
+    + destruct (okey_eqb o k m) eqn:E3; [|reflexivity].
+      destruct (okey_eqb x k m) eqn:E2; [|reflexivity].
+      exfalso. apply okey_eqb_iff in E3 as [? ?]. apply okey_eqb_iff in E2 as [? ?].
+      apply okey_eqb_false in E1. apply E1. split; congruence.
+    + reflexivity.
 Qed.
 
-Lemma get_save_other l x k m :
-  ~ same_key x k m -> get_out (save_out l x) k m = get_out l k m.
+Lemma get_insert l x k m :
+  get_out l (r_key x) (r_mmr x) = None ->
+  get_out (insert_out l x) k m = if okey_eqb x k m then Some x else get_out l k m.
 Proof.
-  intros Hne. apply okey_eqb_false in Hne.
-  induction l as [|o r IH]; cbn [save_out get_out].
-  - now rewrite Hne.
-  - destruct (okey_eqb o (r_key x) (r_mmr x)) eqn:E1.
-    + cbn [get_out]. rewrite Hne.
-      apply okey_eqb_iff in E1 as [E1 E2].
-      assert (okey_eqb o k m = false).
-      { apply okey_eqb_false. intros [H1 H2]. apply okey_eqb_false in Hne. apply Hne.
-        split; congruence. }
-      now rewrite H.
-    + destruct (okey_ltb _ _ _ _); cbn [get_out].
-      * now rewrite Hne.
-      * destruct (okey_eqb o k m); [reflexivity|apply IH].
+  induction l as [|o r IH]; cbn [insert_out get_out]; intros Hn.
+  - reflexivity.
+  - destruct (okey_eqb o (r_key x) (r_mmr x)) eqn:E1; [discriminate|].
+    destruct (okey_ltb _ _ _ _); cbn [get_out].
+    + reflexivity.
+    + rewrite IH by exact Hn. destruct (okey_eqb o k m) eqn:E3; [|reflexivity].
+      destruct (okey_eqb x k m) eqn:E2; [|reflexivity].
+      exfalso. apply okey_eqb_iff in E3 as [? ?]. apply okey_eqb_iff in E2 as [? ?].
+      apply okey_eqb_false in E1. apply E1. split; congruence.
 Qed.
 
 Lemma get_save l x k m :
   get_out (save_out l x) k m = if okey_eqb x k m then Some x else get_out l k m.
 Proof.
-  destruct (okey_eqb x k m) eqn:E.
-  - apply okey_eqb_iff in E as [<- <-]. apply get_save_same.
-  - apply get_save_other. now apply okey_eqb_false.
+  unfold save_out. destruct (get_out l (r_key x) (r_mmr x)) eqn:E.
+  - rewrite get_replace, E. reflexivity.
+  - apply get_insert. exact E.
+Qed.
+
+Lemma get_save_same l x : get_out (save_out l x) (r_key x) (r_mmr x) = Some x.
+Proof.
+  rewrite get_save.
+  assert (E : okey_eqb x (r_key x) (r_mmr x) = true) by (apply okey_eqb_iff; split; reflexivity).
+  now rewrite E.
+Qed.
+
+Lemma get_save_other l x k m :
+  ~ same_key x k m -> get_out (save_out l x) k m = get_out l k m.
+Proof. intros Hne. apply okey_eqb_false in Hne. rewrite get_save. now rewrite Hne. Qed.
+
+Lemma get_out_none l k m : get_out l k m = None <-> ~ In (k, m) (map okey l).
+Proof.
+  induction l as [|o r IH]; cbn [get_out map In]; [tauto|].
+  destruct (okey_eqb o k m) eqn:E.
+  - apply okey_eqb_iff in E as [E1 E2]. split; [discriminate|]. intros H; exfalso; apply H.
+    left. unfold okey. congruence.
+  - rewrite IH. apply okey_eqb_false in E. split; intros H.
+    + intros [Heq|Hin]; [|tauto]. apply E. unfold okey in Heq. inversion Heq; split; reflexivity.
+    + tauto.
+Qed.
+
+Lemma keys_replace l x :
+  (exists o, get_out l (r_key x) (r_mmr x) = Some o) -> map okey (replace_out l x) = map okey l.
+Proof.
+  induction l as [|o r IH]; cbn [replace_out get_out map]; [reflexivity|].
+  destruct (okey_eqb o (r_key x) (r_mmr x)) eqn:E; cbn [map]; intros Hex.
+  - apply okey_eqb_iff in E as [E1 E2]. f_equal. unfold okey. congruence.
+  - f_equal. apply IH. exact Hex.
+Qed.
+
+Lemma in_keys_insert l x kk : In kk (map okey (insert_out l x)) <-> kk = okey x \/ In kk (map okey l).
+Proof.
+  induction l as [|o r IH]; cbn [insert_out map In]; [intuition|].
+  destruct (okey_ltb _ _ _ _); cbn [map In]; [intuition|]. rewrite IH. intuition.
+Qed.
+
+Lemma nodup_insert l x :
+  NoDup (map okey l) -> ~ In (okey x) (map okey l) -> NoDup (map okey (insert_out l x)).
+Proof.
+  induction l as [|o r IH]; cbn [insert_out map]; intros Hn Hni.
+  - constructor; [intros []|constructor].
+  - destruct (okey_ltb _ _ _ _); cbn [map].
+    + constructor; assumption.
+    + inversion Hn as [|? ? Ho Hr]; subst. constructor.
+      * rewrite in_keys_insert. intros [Heq|Hin]; [|contradiction]. apply Hni. left. congruence.
+      * apply IH; [assumption|]. intros Hin; apply Hni; now right.
+Qed.
+
+Lemma nodup_save l x : NoDup (map okey l) -> NoDup (map okey (save_out l x)).
+Proof.
+  intros Hn. unfold save_out. destruct (get_out l (r_key x) (r_mmr x)) eqn:E.
+  - rewrite keys_replace by eauto. exact Hn.
+  - apply nodup_insert; [exact Hn|]. apply get_out_none in E. exact E.
+Qed.
+
+Lemma nodup_del l k m : NoDup (map okey l) -> NoDup (map okey (del_out l k m)).
+Proof.
+  unfold del_out. induction l as [|o r IH]; cbn [filter map]; intros Hn; [constructor|].
+  inversion Hn as [|? ? Ho Hr]; subst.
+  destruct (negb (okey_eqb o k m)); cbn [map]; [|auto].
+  constructor; [|auto]. intros Hin. apply Ho.
+  apply in_map_iff in Hin as (y & Hy & Hin). apply filter_In in Hin as [Hin _].
+  apply in_map_iff. eauto.
 Qed.
 
 Lemma get_del l k0 m0 k m :
@@ -187,7 +260,8 @@ Qed.
 Lemma lock_inputs_spec : forall ins outs id deb outs' deb',
   lock_inputs outs ins id deb = Ok (outs', deb') ->
   (forall k m v, In (k, m, v) ins ->
-     exists o, get_out outs' k m = Some o /\ r_status o = Locked /\ r_tx o = Some id)
+     exists o o0, get_out outs' k m = Some o /\ r_status o = Locked /\ r_tx o = Some id
+                  /\ get_out outs k m = Some o0 /\ o = set_tx (set_status o0 Locked) (Some id))
   /\ (forall k m, (forall v, ~ In (k, m, v) ins) -> get_out outs' k m = get_out outs k m)
   /\ (forall k m v, In (k, m, v) ins ->
         exists o0, get_out outs k m = Some o0 /\ lockable (r_status o0) = true).
@@ -204,11 +278,21 @@ Proof.
     + intros k m v [Heq|Hin].
       * inversion Heq; subst k m v.
         destruct (classic_in r k0 m0) as [[v' Hin']|Hnot].
-        -- eapply H1; eauto.
+        -- (* listed twice: the second attempt finds it Locked and the whole call fails *)
+           exfalso. destruct (H3 k0 m0 v' Hin') as (ox & Hgx & Hlx).
+           rewrite get_save in Hgx.
+           assert (okey_eqb o' k0 m0 = true) as Ek by (apply okey_eqb_iff; exact Hk').
+           rewrite Ek in Hgx. inversion Hgx; subst ox. unfold o' in Hlx. destruct o; cbn in Hlx.
+           discriminate.
         -- rewrite (H2 k0 m0 Hnot). rewrite get_save.
            assert (okey_eqb o' k0 m0 = true) by (apply okey_eqb_iff; exact Hk').
-           rewrite H. exists o'. destruct o; cbn; auto.
-      * eapply H1; eauto.
+           rewrite H. exists o', o. destruct o; cbn; auto.
+      * destruct (H1 k m v Hin) as (ox & o0 & A1 & A2 & A3 & A4 & A5).
+        rewrite get_save in A4. destruct (okey_eqb o' k m) eqn:Ek.
+        -- (* same key as the head: impossible, the head is Locked by then *)
+           exfalso. destruct (H3 k m v Hin) as (oy & Hgy & Hly). rewrite get_save, Ek in Hgy.
+           inversion Hgy; subst oy. unfold o' in Hly. destruct o; cbn in Hly. discriminate.
+        -- exists ox, o0. auto.
     + intros k m Hnot.
       rewrite H2 by (intros v Hin; apply (Hnot v); now right).
       rewrite get_save.
@@ -265,7 +349,8 @@ Proof.
   split; [|split].
   - intros k m v Hin. eapply H3; eauto.
   - intros k m o Hg Hn1 Hn2. rewrite add_change_get by exact Hn2. rewrite H2 by exact Hn1. exact Hg.
-  - intros k m v Hin Hn2. rewrite add_change_get by exact Hn2. eapply H1; eauto.
+  - intros k m v Hin Hn2. rewrite add_change_get by exact Hn2.
+    destruct (H1 k m v Hin) as (o & o0 & A1 & A2 & A3 & _). eauto.
 Qed.
 
 (** a reservation that names an output some pending transaction already holds (or a spent
@@ -275,10 +360,10 @@ Theorem lock_refuses_held w slate ttl tip c k m v :
   (match get_out (w_outs w) k m with
    | Some o => lockable (r_status o) = false
    | None => True end) ->
-  lock w slate ttl tip = (w, Err EGeneric).
+  exists e, lock w slate ttl tip = (w, Err e).
 Proof.
   intros Hc Hin Hbad. unfold lock. rewrite Hc.
-  destruct (existsb _ (w_log w)); [reflexivity|]. unfold next_log_id. cbn zeta.
+  destruct (existsb _ (w_log w)); [eexists; reflexivity|]. unfold next_log_id. cbn zeta.
   cbn [w_outs with_logid].
   assert (Hl : forall ins outs id deb,
      In (k, m, v) ins ->
@@ -286,10 +371,10 @@ Proof.
      (forall k' m' o', get_out outs k' m' = Some o' ->
         lockable (r_status o') = true -> exists o0, get_out (w_outs w) k' m' = Some o0
                                                     /\ lockable (r_status o0) = true) ->
-     lock_inputs outs ins id deb = Err EGeneric).
+     exists e, lock_inputs outs ins id deb = Err e).
   { induction ins as [|[[k0 m0] v0] r IH]; intros outs id deb Hi Hnone Hsome; [contradiction|].
-    cbn [lock_inputs]. destruct (get_out outs k0 m0) as [o|] eqn:Eg; [|reflexivity].
-    destruct (lockable (r_status o)) eqn:Elk; [|reflexivity].
+    cbn [lock_inputs]. destruct (get_out outs k0 m0) as [o|] eqn:Eg; [|eexists; reflexivity].
+    destruct (lockable (r_status o)) eqn:Elk; [|eexists; reflexivity].
     destruct Hi as [Heq|Hi].
     - inversion Heq; subst. exfalso. destruct (Hsome _ _ _ Eg Elk) as (o0 & Hg0 & Hl0).
       rewrite Hg0 in Hbad. congruence.
@@ -299,5 +384,1123 @@ Proof.
         destruct (okey_eqb (set_tx (set_status o Locked) (Some id)) k' m') eqn:E.
         * inversion Hg; subst. destruct o; cbn in Hlk. discriminate.
         * eauto. }
-  rewrite (Hl (c_ins c) (w_outs w)); auto. intros k' m' o' Hg Hlk. eauto.
+  destruct (Hl (c_ins c) (w_outs w) (lookup (w_logid w) (c_parent c)) 0) as [e He]; auto.
+  - intros k' m' o' Hg Hlk. eauto.
+  - rewrite He. eexists; reflexivity.
+Qed.
+
+(* ------------------------------------------------------------------ C05: cancel *)
+
+Definition WF (w : wallet) : Prop := NoDup (map okey (w_outs w)).
+
+(** what cancelling entry [id] of account [parent] does to one record *)
+Definition cancelled_rec (parent id : N) (o : orec) : option orec :=
+  if cancel_cond parent id o
+  then match r_status o with
+       | Unconfirmed | Reverted => None
+       | Locked => Some (set_status o Unspent)
+       | _ => Some o
+       end
+  else Some o.
+
+Lemma get_out_find l k m : get_out l k m = find (fun o => okey_eqb o k m) l.
+Proof. induction l as [|o r IH]; cbn; [reflexivity|]. destruct (okey_eqb o k m); auto. Qed.
+
+Lemma set_status_key o s : r_key (set_status o s) = r_key o /\ r_mmr (set_status o s) = r_mmr o.
+Proof. destruct o; cbn; auto. Qed.
+
+Lemma cancel_fold_get parent id : forall l acc k m,
+  NoDup (map okey l) ->
+  get_out (fold_left (cancel_one parent id) l acc) k m
+  = match get_out l k m with
+    | Some o => if cancel_cond parent id o
+                then match r_status o with
+                     | Unconfirmed | Reverted => None
+                     | Locked => Some (set_status o Unspent)
+                     | _ => get_out acc k m
+                     end
+                else get_out acc k m
+    | None => get_out acc k m
+    end.
+Proof.
+  induction l as [|o r IH]; intros acc k m Hn; cbn [fold_left get_out]; [reflexivity|].
+  inversion Hn as [|? ? Ho Hr]; subst.
+  rewrite IH by exact Hr.
+  destruct (okey_eqb o k m) eqn:E.
+  - (* the record under this key is o itself; no later element has the key *)
+    assert (Hnone : get_out r k m = None).
+    { apply get_out_none. apply okey_eqb_iff in E as [E1 E2]. subst k m. exact Ho. }
+    rewrite Hnone. unfold cancel_one.
+    destruct (cancel_cond parent id o); [|reflexivity].
+    apply okey_eqb_iff in E as [E1 E2].
+    destruct (r_status o) eqn:Es; try reflexivity.
+    + rewrite get_del. subst. now rewrite kid_eqb_refl, optN_eqb_refl.
+    + rewrite get_save. destruct (set_status_key o Unspent) as [K1 K2].
+      assert (okey_eqb (set_status o Unspent) k m = true) by (apply okey_eqb_iff; split; congruence).
+      now rewrite H.
+    + rewrite get_del. subst. now rewrite kid_eqb_refl, optN_eqb_refl.
+  - (* another key: processing o does not change what is stored under (k, m) *)
+    assert (Hsame : get_out (cancel_one parent id acc o) k m = get_out acc k m).
+    { unfold cancel_one. destruct (cancel_cond parent id o); [|reflexivity].
+      apply okey_eqb_false in E.
+      destruct (r_status o); try reflexivity.
+      - rewrite get_del. destruct (kid_eqb (r_key o) k && optN_eqb (r_mmr o) m) eqn:E2; [|reflexivity].
+        exfalso. apply E. apply andb_true_iff in E2 as [A B]. apply kid_eqb_eq in A.
+        apply optN_eqb_eq in B. split; assumption.
+      - apply get_save_other. destruct (set_status_key o Unspent) as [K1 K2].
+        intros [A B]. apply E. split; congruence.
+      - rewrite get_del. destruct (kid_eqb (r_key o) k && optN_eqb (r_mmr o) m) eqn:E2; [|reflexivity].
+        exfalso. apply E. apply andb_true_iff in E2 as [A B]. apply kid_eqb_eq in A.
+        apply optN_eqb_eq in B. split; assumption. }
+    rewrite Hsame. reflexivity.
+Qed.
+
+Lemma cancel_outputs_get outs parent id k m :
+  NoDup (map okey outs) ->
+  get_out (cancel_outputs outs parent id) k m
+  = match get_out outs k m with
+    | Some o => cancelled_rec parent id o
+    | None => None
+    end.
+Proof.
+  intros Hn. unfold cancel_outputs. rewrite cancel_fold_get by exact Hn.
+  unfold cancelled_rec. destruct (get_out outs k m) as [o|] eqn:E; [|reflexivity].
+  destruct (cancel_cond parent id o); [|reflexivity]. destruct (r_status o); reflexivity.
+Qed.
+
+(** C05 frame: a successful cancel changes only the records linked to the cancelled entry in
+    the active account, changes that entry's type only, and leaves everything else alone. *)
+Theorem cancel_frame w id slate w' :
+  WF w -> cancel w id slate = (w', Ok tt) ->
+  exists t, retrieve_txs w id slate (w_active w) = [t]
+    /\ In t (w_log w) /\ t_parent t = w_active w /\ t_conf t = false
+    /\ (t_type t = TSent \/ t_type t = TReceived \/ t_type t = TReverted)
+    /\ (forall k m, get_out (w_outs w') k m
+                    = match get_out (w_outs w) k m with
+                      | Some o => cancelled_rec (w_active w) (t_id t) o
+                      | None => None end)
+    /\ w_log w' = save_tx (w_log w) (set_ttype t (cancelled_type (t_type t)))
+    /\ w_ctxs w' = w_ctxs w /\ w_child w' = w_child w /\ w_logid w' = w_logid w
+    /\ w_confh w' = w_confh w /\ w_active w' = w_active w.
+Proof.
+  intros Hwf. unfold cancel.
+  destruct (retrieve_txs w id slate (w_active w)) as [|t [|t2 r]] eqn:Er; try discriminate.
+  destruct (negb _) eqn:Ety; [discriminate|].
+  destruct (t_conf t) eqn:Ec; [discriminate|].
+  intros H; inversion H; subst; clear H. exists t.
+  assert (Hin : In t (retrieve_txs w id slate (w_active w))) by (rewrite Er; now left).
+  unfold retrieve_txs in Hin. apply filter_In in Hin as [Hin Hf].
+  split; [reflexivity|]. split; [exact Hin|]. split.
+  { apply andb_true_iff in Hf as [Hf _]. apply andb_true_iff in Hf as [Hf _]. lia. }
+  split; [exact Ec|]. split.
+  { destruct (t_type t); cbn in Ety; try discriminate; auto. }
+  cbn. split; [|repeat split].
+  intros k m. apply cancel_outputs_get. exact Hwf.
+Qed.
+
+(** C05 refusals: confirmed, already cancelled, coinbase and unknown transactions are
+    refused and the wallet is left exactly as it was. *)
+Theorem cancel_refusals w id slate w' e :
+  cancel w id slate = (w', Err e) -> w' = w.
+Proof.
+  unfold cancel. destruct (retrieve_txs w id slate (w_active w)) as [|t [|t2 r]];
+    try (intros H; now inversion H).
+  destruct (negb _); [intros H; now inversion H|].
+  destruct (t_conf t); [intros H; now inversion H|discriminate].
+Qed.
+
+Theorem cancel_refuses_what w id slate t :
+  retrieve_txs w id slate (w_active w) = [t] ->
+  (t_conf t = true \/ t_type t = TCoinbase \/ t_type t = TSentCancelled
+   \/ t_type t = TReceivedCancelled) ->
+  cancel w id slate = (w, Err ENotCancellable).
+Proof.
+  intros Hr Hc. unfold cancel. rewrite Hr.
+  destruct Hc as [Hc|[Hc|[Hc|Hc]]].
+  - destruct (negb _); [reflexivity|]. now rewrite Hc.
+  - now rewrite Hc.
+  - now rewrite Hc.
+  - now rewrite Hc.
+Qed.
+
+Theorem cancel_unknown w id slate :
+  (forall t, In t (w_log w) -> t_parent t = w_active w ->
+     ~ ((match id with Some i => t_id t = i | None => True end)
+        /\ (match slate with Some s => t_slate t = Some s | None => True end))) ->
+  cancel w id slate = (w, Err ENotFound).
+Proof.
+  intros Hn. unfold cancel.
+  assert (retrieve_txs w id slate (w_active w) = []) as ->; [|reflexivity].
+  unfold retrieve_txs. induction (w_log w) as [|t r IH]; cbn [filter]; [reflexivity|].
+  destruct (_ && _) eqn:E.
+  - exfalso. apply andb_true_iff in E as [E E3]. apply andb_true_iff in E as [E1 E2].
+    apply (Hn t); [now left|lia|]. split.
+    + destruct id; [lia|exact I].
+    + destruct slate; [now apply optN_eqb_eq|exact I].
+  - apply IH. intros t' Hin. apply Hn. now right.
+Qed.
+
+(* ------------------------------------------------------------------ C15: key freshness *)
+
+(** every key id recorded anywhere (output table, contexts) lies below the next-child counter
+    of its account path *)
+Definition key_below (w : wallet) (k : kid) : Prop := snd k < lookup (w_child w) (fst k).
+Definition Fresh (w : wallet) : Prop :=
+  (forall o, In o (w_outs w) -> key_below w (r_key o))
+  /\ (forall c k m v, In c (w_ctxs w) -> In (k, m, v) (c_outs c) -> key_below w k).
+
+Lemma next_child_spec w w' k :
+  next_child w = (w', k) ->
+  k = (w_active w, lookup (w_child w) (w_active w))
+  /\ lookup (w_child w') (w_active w) = lookup (w_child w) (w_active w) + 1
+  /\ (forall a, a <> w_active w -> lookup (w_child w') a = lookup (w_child w) a)
+  /\ w_outs w' = w_outs w /\ w_log w' = w_log w /\ w_ctxs w' = w_ctxs w
+  /\ w_logid w' = w_logid w /\ w_confh w' = w_confh w /\ w_active w' = w_active w.
+Proof.
+  unfold next_child. intros H; inversion H; subst; clear H. cbn.
+  repeat split.
+  - rewrite lookup_update. now rewrite N.eqb_refl.
+  - intros a Ha. rewrite lookup_update. destruct (w_active w =? a) eqn:E; [lia|reflexivity].
+Qed.
+
+(** the key handed out was never recorded before: it is not in the table nor in a context *)
+Theorem next_child_fresh w w' k :
+  Fresh w -> next_child w = (w', k) ->
+  (forall m, get_out (w_outs w) k m = None)
+  /\ (forall c k' m v, In c (w_ctxs w) -> In (k', m, v) (c_outs c) -> k' <> k)
+  /\ key_below w' k.
+Proof.
+  intros [Ho Hc] Hn. apply next_child_spec in Hn as (-> & Hb & _).
+  split; [|split].
+  - intros m. apply get_out_none. intros Hin. apply in_map_iff in Hin as (o & Hk & Hin).
+    specialize (Ho o Hin). unfold key_below in Ho. unfold okey in Hk. inversion Hk as [[Hk1 Hk2]].
+    rewrite Hk1 in Ho. cbn in Ho. lia.
+  - intros c k' m v Hin1 Hin2 ->. specialize (Hc c _ m v Hin1 Hin2). unfold key_below in Hc.
+    cbn in Hc. lia.
+  - unfold key_below. cbn. lia.
+Qed.
+
+Lemma child_mono_next w w' k a :
+  next_child w = (w', k) -> lookup (w_child w) a <= lookup (w_child w') a.
+Proof.
+  intros H. apply next_child_spec in H as (_ & Hb & Hs & _).
+  destruct (N.eq_dec a (w_active w)) as [->|Hne]; [lia|]. rewrite Hs by exact Hne. lia.
+Qed.
+
+(* ------------------------------------------------------------------ C07: foreign operations *)
+
+Lemma next_log_id_spec w parent w' id :
+  next_log_id w parent = (w', id) ->
+  id = lookup (w_logid w) parent /\ w_outs w' = w_outs w /\ w_log w' = w_log w
+  /\ w_ctxs w' = w_ctxs w /\ w_child w' = w_child w /\ w_confh w' = w_confh w
+  /\ w_active w' = w_active w.
+Proof. unfold next_log_id. intros H; inversion H; subst; cbn. repeat split. Qed.
+
+(** foreign::receive_tx never touches an existing record: whatever the slate says, every
+    output stored before is stored unchanged afterwards, no context is consumed, and when it
+    succeeds exactly one Unconfirmed output of the slate's amount is added to the destination
+    account. *)
+Theorem receive_only_adds w slate amount ttl dest crypto_ok w' r :
+  Fresh w -> receive w slate amount ttl dest crypto_ok = (w', r) ->
+  (forall k m o, get_out (w_outs w) k m = Some o -> get_out (w_outs w') k m = Some o)
+  /\ w_ctxs w' = w_ctxs w
+  /\ (r = Ok tt ->
+      let key := (w_active w, lookup (w_child w) (w_active w)) in
+      let parent := match dest with Some d => d | None => w_active w end in
+      exists o, get_out (w_outs w') key None = Some o
+        /\ r_value o = amount /\ r_status o = Unconfirmed /\ r_root o = parent /\ r_cb o = false
+        /\ (forall k m, (k, m) <> (key, None) -> get_out (w_outs w') k m = get_out (w_outs w) k m))
+  /\ (is_ok r = false -> r <> Err ECrypto -> w' = w).
+Proof.
+  intros Hf. unfold receive.
+  destruct (check_ttl w ttl) as [[]|e|q] eqn:Et.
+  2:{ intros H; inversion H; subst. repeat split; auto; intros; discriminate. }
+  2:{ intros H; inversion H; subst. repeat split; auto; intros; discriminate. }
+  destruct (existsb _ (w_log w)) eqn:Edup.
+  { intros H; inversion H; subst. repeat split; auto; intros; discriminate. }
+  destruct (next_child w) as [w1 key] eqn:En.
+  destruct (next_log_id w1 _) as [w2 id] eqn:El.
+  intros H; inversion H; subst; clear H.
+  pose proof (next_child_fresh _ _ _ Hf En) as (Hfr & _ & _).
+  apply next_child_spec in En as (Hkey & _ & _ & Ho1 & _ & Hc1 & _).
+  apply next_log_id_spec in El as (_ & Ho2 & _ & Hc2 & _).
+  cbn [w_outs w_ctxs with_log with_outs].
+  set (o := mkO _ key None amount Unconfirmed _ 0 false (Some id)).
+  assert (Hget : forall k m, get_out (save_out (w_outs w2) o) k m
+                 = if okey_eqb o k m then Some o else get_out (w_outs w) k m).
+  { intros k m. rewrite get_save. now rewrite Ho2, Ho1. }
+  split; [|split; [|split]].
+  - intros k m o0 Hg. rewrite Hget. destruct (okey_eqb o k m) eqn:E; [|exact Hg].
+    exfalso. apply okey_eqb_iff in E as [E1 E2]. cbn in E1, E2. subst k m.
+    rewrite Hfr in Hg. discriminate.
+  - now rewrite Hc2, Hc1.
+  - intros Hr. cbn zeta. exists o. rewrite Hget. subst key.
+    assert (E : okey_eqb o (w_active w, lookup (w_child w) (w_active w)) None = true).
+    { apply okey_eqb_iff. split; reflexivity. }
+    rewrite E. repeat split; try reflexivity.
+    intros k m Hne. rewrite Hget. destruct (okey_eqb o k m) eqn:E2; [|reflexivity].
+    exfalso. apply okey_eqb_iff in E2 as [E3 E4]. cbn in E3, E4. subst. now apply Hne.
+  - intros Hnok Hnc. destruct crypto_ok; cbn in Hnok; [discriminate|]. contradiction.
+Qed.
+
+(** a second delivery of a slate already received into that account is refused, no effect *)
+Theorem receive_twice_refused w slate amount ttl dest crypto_ok t :
+  In t (w_log w) -> t_slate t = Some slate -> t_type t = TReceived ->
+  t_parent t = (match dest with Some d => d | None => w_active w end) ->
+  fst (receive w slate amount ttl dest crypto_ok) = w
+  /\ is_ok (snd (receive w slate amount ttl dest crypto_ok)) = false.
+Proof.
+  intros Hin Hs Ht Hp. unfold receive.
+  destruct (check_ttl w ttl) as [[]|e|q]; try (split; reflexivity).
+  assert (E : existsb (fun t0 => optN_eqb (t_slate t0) (Some slate)
+             && (t_parent t0 =? match dest with Some d => d | None => w_active w end)
+             && ttype_eqb (t_type t0) TReceived) (w_log w) = true).
+  { apply existsb_exists. exists t. split; [exact Hin|]. rewrite Hs, Ht, Hp, optN_eqb_refl.
+    rewrite N.eqb_refl. reflexivity. }
+  rewrite E. split; reflexivity.
+Qed.
+
+(** foreign::build_coinbase: every existing record is left alone, except a still-unconfirmed
+    coinbase candidate the caller names (which it replaces) *)
+Theorem coinbase_only_adds w fees height key w' k :
+  Fresh w -> coinbase w fees height key = (w', Ok k) ->
+  (forall k0 m o, get_out (w_outs w) k0 m = Some o ->
+     get_out (w_outs w') k0 m = Some o
+     \/ (key = Some k0 /\ m = None /\ r_cb o = true /\ r_status o = Unconfirmed))
+  /\ w_ctxs w' = w_ctxs w /\ w_log w' = w_log w.
+Proof.
+  intros Hf. unfold coinbase.
+  set (reuse := match key with Some k0 => _ | None => None end).
+  destruct reuse as [kr|] eqn:Er.
+  - (* reuse: the named record is an unconfirmed coinbase *)
+    intros H; inversion H; subst; clear H. cbn [w_outs w_ctxs w_log with_outs].
+    split; [|split; reflexivity].
+    intros k0 m o Hg. rewrite get_save.
+    match goal with |- context [okey_eqb ?x k0 m] => destruct (okey_eqb x k0 m) eqn:E end; [|left; exact Hg].
+    right. apply okey_eqb_iff in E as [E1 E2]. cbn in E1, E2. subst k0 m.
+    unfold reuse in Er. destruct key as [k0|]; [|discriminate].
+    destruct (get_out (w_outs w) k0 None) as [o0|] eqn:Eg0; [|discriminate].
+    destruct (r_cb o0 && status_eqb (r_status o0) Unconfirmed) eqn:Ec; [|discriminate].
+    inversion Er; subst k0. rewrite Hg in Eg0. inversion Eg0; subst o0.
+    apply andb_true_iff in Ec as [Ec1 Ec2]. destruct (r_status o); try discriminate. auto.
+  - destruct (next_child w) as [w1 k1] eqn:En.
+    intros H; inversion H; subst; clear H. cbn [w_outs w_ctxs w_log with_outs].
+    pose proof (next_child_fresh _ _ _ Hf En) as (Hfr & _ & _).
+    apply next_child_spec in En as (Hkey & _ & _ & Ho1 & Hl1 & Hc1 & _).
+    split; [|split; congruence].
+    intros k0 m o Hg. left. rewrite get_save, Ho1.
+    match goal with |- context [okey_eqb ?x k0 m] => destruct (okey_eqb x k0 m) eqn:E end; [|exact Hg].
+    exfalso. apply okey_eqb_iff in E as [E1 E2]. cbn in E1, E2. subst k0 m.
+    rewrite Hfr in Hg. discriminate.
+Qed.
+
+(** a finalize request for a slate this wallet holds no context for does nothing *)
+Theorem finalize_unknown_slate w slate ttl tip so co :
+  get_ctx w slate = None -> finalize w slate ttl tip so co = (w, Err EOther).
+Proof. intros H. unfold finalize. now rewrite H. Qed.
+
+(** a reply that is not validly counter-signed does not consume the context, and — unless
+    the transaction was late-locked (known finding C07-late-lock) — changes nothing *)
+Theorem finalize_invalid_reply_no_effect w slate ttl tip so c :
+  get_ctx w slate = Some c -> c_late c = None ->
+  finalize w slate ttl tip so false = (w, snd (finalize w slate ttl tip so false))
+  /\ is_ok (snd (finalize w slate ttl tip so false)) = false.
+Proof.
+  intros Hc Hl. unfold finalize. rewrite Hc, Hl.
+  destruct (check_ttl w ttl) as [[]|e|q]; try (split; reflexivity).
+  destruct (negb so); split; reflexivity.
+Qed.
+
+(* ------------------------------------------------------------------ C03: replays, stability *)
+
+Theorem lock_twice_refused w slate ttl tip c t :
+  get_ctx w slate = Some c -> In t (w_log w) -> t_slate t = Some slate ->
+  t_parent t = c_parent c -> t_type t = TSent ->
+  lock w slate ttl tip = (w, Err EGeneric).
+Proof.
+  intros Hc Hin Hs Hp Ht. unfold lock. rewrite Hc.
+  assert (E : existsb (fun t0 => optN_eqb (t_slate t0) (Some slate) && (t_parent t0 =? c_parent c)
+                                 && ttype_eqb (t_type t0) TSent) (w_log w) = true).
+  { apply existsb_exists. exists t. split; [exact Hin|]. rewrite Hs, Hp, Ht, optN_eqb_refl, N.eqb_refl.
+    reflexivity. }
+  now rewrite E.
+Qed.
+
+Lemma alloc_change_outs : forall chg w w' l, alloc_change w chg = (w', l) ->
+  w_outs w' = w_outs w /\ w_log w' = w_log w /\ w_ctxs w' = w_ctxs w /\ w_active w' = w_active w
+  /\ w_logid w' = w_logid w /\ w_confh w' = w_confh w.
+Proof.
+  induction chg as [|v r IH]; intros w w' l H; cbn [alloc_change] in H.
+  - inversion H; subst. repeat split.
+  - destruct (next_child w) as [w1 k] eqn:En. destruct (alloc_change w1 r) as [w2 l2] eqn:Ea.
+    inversion H; subst; clear H. apply IH in Ea as (A1 & A2 & A3 & A4 & A5 & A6).
+    apply next_child_spec in En as (_ & _ & _ & B1 & B2 & B3 & B4 & B5 & B6).
+    repeat split; congruence.
+Qed.
+
+Lemma init_send_outs w slate src p late :
+  w_outs (fst (init_send w slate src p late)) = w_outs w
+  /\ w_log (fst (init_send w slate src p late)) = w_log w.
+Proof.
+  unfold init_send. destruct late.
+  - destruct (select_coins_and_fee _ _) as [[[[? ?] ?] ?]|e|q]; cbn; auto.
+  - destruct (build_send _ _) as [b|e|q]; cbn; auto.
+    destruct (alloc_change w (b_changes b)) as [w1 chg] eqn:Ea. cbn.
+    apply alloc_change_outs in Ea as (A1 & A2 & _). auto.
+Qed.
+
+(** Held outputs stay held. For a record that is Locked, each operation either leaves it
+    exactly as it is, or is one of the two legitimate releases: a successful cancel of the
+    log entry that holds it (-> Unspent), or a refresh of its account (-> Locked or Spent);
+    a reservation naming it is refused. (Late-locked finalize = selection + reservation,
+    covered by C01 (selection skips held outputs) and the reservation theorems.) *)
+Theorem held_stable_step w k m o :
+  Fresh w -> WF w -> get_out (w_outs w) k m = Some o -> r_status o = Locked ->
+  (forall s a t d c, get_out (w_outs (fst (receive w s a t d c))) k m = Some o)
+  /\ (forall f h key, get_out (w_outs (fst (coinbase w f h key))) k m = Some o)
+  /\ (forall s src p late, get_out (w_outs (fst (init_send w s src p late))) k m = Some o)
+  /\ (forall s t tip, get_out (w_outs (fst (lock w s t tip))) k m = Some o
+        \/ exists c v, get_ctx w s = Some c
+             /\ In (k, m, v) (map (fun x => (fst (fst x), None, snd x)) (c_outs c)))
+  /\ (forall id sl, get_out (w_outs (fst (cancel w id sl))) k m = Some o
+        \/ (snd (cancel w id sl) = Ok tt
+            /\ r_root o = w_active w
+            /\ get_out (w_outs (fst (cancel w id sl))) k m = Some (set_status o Unspent)
+            /\ exists t, In t (retrieve_txs w id sl (w_active w)) /\ r_tx o = Some (t_id t)))
+  /\ (forall s t tip so co c, get_ctx w s = Some c -> c_late c = None ->
+        get_out (w_outs (fst (finalize w s t tip so co))) k m = Some o).
+Proof.
+  intros Hf Hwf Hg Hl. split; [|split; [|split; [|split; [|split]]]].
+  - intros s a t d c.
+    destruct (receive w s a t d c) as [w' r] eqn:E. cbn.
+    apply (receive_only_adds _ _ _ _ _ _ _ _ Hf) in E as (H1 & _). auto.
+  - intros f h key. destruct (coinbase w f h key) as [w' r] eqn:E. cbn.
+    assert (exists k', r = Ok k') as [k' ->].
+    { unfold coinbase in E. destruct (match key with Some _ => _ | None => None end);
+        [|destruct (next_child w)]; inversion E; eauto. }
+    apply (coinbase_only_adds _ _ _ _ _ _ Hf) in E as (H1 & _).
+    destruct (H1 _ _ _ Hg) as [H|(_ & _ & _ & Hs)]; [exact H|]. rewrite Hl in Hs. discriminate.
+  - intros s src p late. destruct (init_send_outs w s src p late) as [-> _]. exact Hg.
+  - intros s t tip. destruct (lock w s t tip) as [w' r] eqn:E. cbn.
+    destruct r as [[]|e|q].
+    + pose proof E as E0. apply lock_exclusive in E as (c & Hc & _ & Hkeep & _).
+      destruct (classic_in (c_ins c) k m) as [[v Hin]|Hn1].
+      * (* named as an input: then the reservation would have been refused *)
+        exfalso. pose proof (lock_refuses_held w s t tip c k m v Hc Hin) as Hr.
+        rewrite Hg in Hr. rewrite Hl in Hr. destruct (Hr eq_refl) as [e He]. congruence.
+      * destruct (classic_in (map (fun x => (fst (fst x), None, snd x)) (c_outs c)) k m) as [[v Hin]|Hn2].
+        -- right. eauto.
+        -- left. apply Hkeep; auto.
+    + left. unfold lock in E. destruct (get_ctx w s); [|inversion E; subst; exact Hg].
+      destruct (existsb _ _); [inversion E; subst; exact Hg|].
+      destruct (next_log_id w (c_parent c)) as [w1 id]. destruct (lock_inputs _ _ _ _) as [[? ?]|?|?];
+        inversion E; subst; exact Hg.
+    + left. unfold lock in E. destruct (get_ctx w s); [|inversion E; subst; exact Hg].
+      destruct (existsb _ _); [inversion E; subst; exact Hg|].
+      destruct (next_log_id w (c_parent c)) as [w1 id]. destruct (lock_inputs _ _ _ _) as [[? ?]|?|?];
+        inversion E; subst; exact Hg.
+  - intros id sl. destruct (cancel w id sl) as [w' r] eqn:E. cbn.
+    destruct r as [[]|e|q].
+    + apply (cancel_frame _ _ _ _ Hwf) in E as (t & Hret & Hin & Hp & _ & _ & Hget & _).
+      rewrite Hget, Hg. unfold cancelled_rec, cancel_cond.
+      destruct (r_root o =? w_active w) eqn:E1; cbn [andb]; [|left; reflexivity].
+      destruct (optN_eqb (r_tx o) (Some (t_id t))) eqn:E2; cbn [andb]; [|left; reflexivity].
+      rewrite Hl. cbn. right. split; [reflexivity|]. split; [lia|]. split; [reflexivity|].
+      exists t. split.
+      * rewrite Hret. now left.
+      * now apply optN_eqb_eq.
+    + left. apply cancel_refusals in E. subst. exact Hg.
+    + left. unfold cancel in E. destruct (retrieve_txs _ _ _ _) as [|? [|? ?]]; try (inversion E; subst; exact Hg).
+      destruct (negb _); [inversion E; subst; exact Hg|]. destruct (t_conf _); inversion E; subst; exact Hg.
+  - intros s t tip so co c Hc Hlate. unfold finalize. rewrite Hc, Hlate.
+    destruct (check_ttl w t) as [[]|e|q]; cbn; try exact Hg.
+    destruct (negb so); cbn; [exact Hg|].
+    destruct (negb co); cbn; [exact Hg|].
+    destruct (negb (existsb _ _)); cbn; [exact Hg|].
+    destruct (find _ _); cbn; exact Hg.
+Qed.
+
+(* ------------------------------------------------------------------ C05: exact rollback *)
+
+Lemma nodup_lock_inputs : forall ins outs id deb outs' deb',
+  NoDup (map okey outs) -> lock_inputs outs ins id deb = Ok (outs', deb') -> NoDup (map okey outs').
+Proof.
+  induction ins as [|[[k m] v] r IH]; intros outs id deb outs' deb' Hn H; cbn [lock_inputs] in H.
+  - inversion H; subst; exact Hn.
+  - destruct (get_out outs k m); [|discriminate]. destruct (lockable _); [|discriminate].
+    eapply IH; [|exact H]. now apply nodup_save.
+Qed.
+
+Lemma nodup_add_change : forall chg outs parent id tip,
+  NoDup (map okey outs) -> NoDup (map okey (add_change outs chg parent id tip)).
+Proof.
+  induction chg as [|[[k m] v] r IH]; intros outs parent id tip Hn; cbn [add_change]; [exact Hn|].
+  apply IH. now apply nodup_save.
+Qed.
+
+Lemma lock_wf w slate ttl tip w' r : WF w -> lock w slate ttl tip = (w', r) -> WF w'.
+Proof.
+  unfold WF, lock. intros Hn. destruct (get_ctx w slate); [|intros H; inversion H; subst; exact Hn].
+  destruct (existsb _ _); [intros H; inversion H; subst; exact Hn|].
+  unfold next_log_id. cbn zeta. cbn [w_outs with_logid].
+  destruct (lock_inputs _ _ _ _) as [[o d]|e|q] eqn:E; intros H; inversion H; subst; try exact Hn.
+  cbn. apply nodup_add_change. eapply nodup_lock_inputs; eauto.
+Qed.
+
+Lemma filter_save_tx_unique (P : trec -> bool) : forall l x,
+  (forall t, In t l -> P t = false) -> P x = true -> filter P (save_tx l x) = [x].
+Proof.
+  induction l as [|t r IH]; intros x Hl Hx; cbn [save_tx filter].
+  - now rewrite Hx.
+  - assert (Ht : P t = false) by (apply Hl; now left).
+    assert (Hr : forall t', In t' r -> P t' = false) by (intros; apply Hl; now right).
+    assert (Hfr : filter P r = []).
+    { clear - Hr. induction r as [|a r IH]; cbn; [reflexivity|]. rewrite (Hr a) by now left.
+      apply IH. intros; apply Hr; now right. }
+    destruct (tkey_eqb t (t_parent x) (t_id x)); cbn [filter].
+    + now rewrite Hx, Hfr.
+    + destruct (_ || _); cbn [filter].
+      * now rewrite Hx, Ht, Hfr.
+      * rewrite Ht. now apply IH.
+Qed.
+
+Lemma add_change_in : forall chg outs parent id tip k v,
+  In (k, None, v) (map (fun x => (fst (fst x), @None N, snd x)) chg) ->
+  exists o, get_out (add_change outs chg parent id tip) k None = Some o
+            /\ r_root o = parent /\ r_tx o = Some id /\ r_status o = Unconfirmed.
+Proof.
+  induction chg as [|[[k0 m0] v0] r IH]; intros outs parent id tip k v Hin; [contradiction|].
+  cbn [add_change].
+  destruct (classic_in (map (fun x => (fst (fst x), @None N, snd x)) r) k None) as [[v' Hin']|Hn].
+  - eapply IH; eauto.
+  - destruct Hin as [Heq|Hin]; [|exfalso; eapply Hn; eauto].
+    inversion Heq; subst k0 v0. rewrite add_change_get by exact Hn. rewrite get_save_same.
+    eexists; repeat split.
+Qed.
+
+Definition sv (o : orec) : N * status := (r_value o, r_status o).
+
+(** C05 (immediate rollback of a reservation): in every wallet state, cancelling a sent
+    transaction right after it was reserved puts status and value of EVERY output back to
+    what they were: reserved inputs spendable again, change outputs gone, nothing else
+    touched. Hypotheses: the inputs were Unspent records of the transaction's account (an
+    Unconfirmed input — possible only with minimum_confirmations = 0 — comes back as Unspent:
+    recorded known finding C05-unconfirmed-input), the change keys were unused and the new
+    log id unused (both are invariants of every reachable state: Fresh / log-id freshness). *)
+Lemma cancel_of_unique w id slate t :
+  retrieve_txs w id slate (w_active w) = [t] ->
+  (t_type t = TSent \/ t_type t = TReceived \/ t_type t = TReverted) -> t_conf t = false ->
+  cancel w id slate
+  = (with_log (with_outs w (cancel_outputs (w_outs w) (w_active w) (t_id t)))
+              (save_tx (w_log w) (set_ttype t (cancelled_type (t_type t)))), Ok tt).
+Proof.
+  intros Hr Ht Hc. unfold cancel. rewrite Hr, Hc.
+  destruct Ht as [Ht|[Ht|Ht]]; rewrite Ht; reflexivity.
+Qed.
+
+(** what a successful lock produces, field by field *)
+Lemma lock_ok_fields w slate ttl tip w1 c :
+  get_ctx w slate = Some c -> lock w slate ttl tip = (w1, Ok tt) ->
+  let id := lookup (w_logid w) (c_parent c) in
+  exists outs1 deb,
+    lock_inputs (w_outs w) (c_ins c) id 0 = Ok (outs1, deb)
+    /\ w_outs w1 = add_change outs1 (c_outs c) (c_parent c) id tip
+    /\ (exists tnew, w_log w1 = save_tx (w_log w) tnew /\ t_parent tnew = c_parent c
+          /\ t_id tnew = id /\ t_type tnew = TSent /\ t_conf tnew = false)
+    /\ w_ctxs w1 = w_ctxs w /\ w_child w1 = w_child w /\ w_active w1 = w_active w.
+Proof.
+  intros Hc Hlock. unfold lock in Hlock. rewrite Hc in Hlock.
+  destruct (existsb _ (w_log w)); [discriminate|].
+  unfold next_log_id in Hlock. cbn zeta in Hlock. cbn [w_outs with_logid] in Hlock.
+  destruct (lock_inputs _ _ _ _) as [[outs1 deb]|e|q] eqn:El; try discriminate.
+  inversion Hlock; subst w1; clear Hlock. cbn zeta.
+  exists outs1, deb. split; [exact El|]. split; [reflexivity|]. split.
+  - eexists. split; [reflexivity|]. repeat split.
+  - repeat split.
+Qed.
+
+Theorem lock_cancel_rollback w slate ttl tip w1 c :
+  WF w -> get_ctx w slate = Some c -> c_parent c = w_active w ->
+  lock w slate ttl tip = (w1, Ok tt) ->
+  let id := lookup (w_logid w) (c_parent c) in
+  (forall k m o, get_out (w_outs w) k m = Some o -> r_root o = c_parent c -> r_tx o <> Some id) ->
+  (forall t, In t (w_log w) -> t_parent t = c_parent c -> t_id t <> id) ->
+  (forall k m v, In (k, m, v) (c_ins c) ->
+     exists o, get_out (w_outs w) k m = Some o /\ r_status o = Unspent /\ r_root o = c_parent c) ->
+  (forall k m v, In (k, m, v) (c_outs c) -> get_out (w_outs w) k None = None) ->
+  exists w2, cancel w1 (Some id) None = (w2, Ok tt)
+    /\ (forall k m, option_map sv (get_out (w_outs w2) k m) = option_map sv (get_out (w_outs w) k m))
+    /\ w_ctxs w2 = w_ctxs w /\ w_child w2 = w_child w.
+Proof.
+  intros Hwf Hc Hpar Hlock id Hnolink Hnoid Hins Houts.
+  pose proof (lock_wf _ _ _ _ _ _ Hwf Hlock) as Hwf1.
+  destruct (lock_ok_fields _ _ _ _ _ _ Hc Hlock)
+    as (outs1 & deb & El & Ho1 & (tnew & Hl1 & Tp & Ti & Tt & Tc) & Hc1 & Hch1 & Ha1).
+  fold id in El, Ho1, Ti.
+  assert (Hret : retrieve_txs w1 (Some id) None (w_active w1) = [tnew]).
+  { unfold retrieve_txs. rewrite Hl1, Ha1.
+    apply filter_save_tx_unique.
+    - intros t Hin. destruct (t_parent t =? w_active w) eqn:E1; cbn [andb]; [|reflexivity].
+      destruct (t_id t =? id) eqn:E2; [|reflexivity].
+      exfalso. apply (Hnoid t Hin); [rewrite Hpar|]; lia.
+    - rewrite Tp, Ti, Hpar, !N.eqb_refl. reflexivity. }
+  rewrite (cancel_of_unique _ _ _ _ Hret (or_introl Tt) Tc).
+  eexists; split; [reflexivity|]. cbn [w_outs w_ctxs w_child with_log with_outs].
+  split; [|split; assumption].
+  intros k m. rewrite cancel_outputs_get by exact Hwf1. rewrite Ti, Ha1, Ho1.
+  apply lock_inputs_spec in El as (H1 & H2 & H3).
+  destruct (classic_in (c_ins c) k m) as [[v Hin]|Hn1].
+  - (* an input: Locked by the new entry, comes back Unspent with the same value *)
+    destruct (Hins k m v Hin) as (o0 & Hg0 & Hs0 & Hr0).
+    assert (Hn2 : forall v', ~ In (k, m, v') (map (fun x => (fst (fst x), @None N, snd x)) (c_outs c))).
+    { intros v' Hin'. apply in_map_iff in Hin' as ([[k' m'] v''] & Heq & Hin'').
+      cbn in Heq. inversion Heq; subst. rewrite (Houts _ _ _ Hin'') in Hg0. discriminate. }
+    rewrite add_change_get by exact Hn2.
+    destruct (H1 k m v Hin) as (o & o0' & A1 & A2 & A3 & A4 & A5).
+    rewrite A1, Hg0. rewrite Hg0 in A4. inversion A4; subst o0'.
+    unfold cancelled_rec, cancel_cond. subst o. destruct o0; cbn in *. subst.
+    rewrite Hpar, N.eqb_refl, N.eqb_refl. cbn. reflexivity.
+  - destruct (classic_in (map (fun x => (fst (fst x), @None N, snd x)) (c_outs c)) k m) as [[v Hin]|Hn2].
+    + (* a change output: created by the lock, deleted by the cancel, absent before *)
+      assert (m = None) as ->.
+      { apply in_map_iff in Hin as (x & Heq & _). now inversion Heq. }
+      destruct (add_change_in (c_outs c) outs1 (c_parent c) id tip k v Hin) as (o & Hg & Hr & Ht & Hs).
+      rewrite Hg. unfold cancelled_rec, cancel_cond. rewrite Hr, Ht, Hs, Hpar, N.eqb_refl, optN_eqb_refl.
+      cbn. apply in_map_iff in Hin as ([[k' m'] v''] & Heq & Hin''). cbn in Heq. inversion Heq; subst.
+      now rewrite (Houts _ _ _ Hin'').
+    + (* any other record: unchanged by lock, and not linked to the new id *)
+      rewrite add_change_get by exact Hn2. rewrite H2 by exact Hn1.
+      destruct (get_out (w_outs w) k m) as [o|] eqn:Eg; [|reflexivity].
+      unfold cancelled_rec, cancel_cond.
+      destruct (r_root o =? w_active w) eqn:E1; cbn [andb]; [|reflexivity].
+      destruct (optN_eqb (r_tx o) (Some id)) eqn:E2; cbn [andb]; [|reflexivity].
+      exfalso. apply optN_eqb_eq in E2. apply (Hnolink k m o Eg); [rewrite Hpar; lia|exact E2].
+Qed.
+
+(** known finding C07-late-lock: a forged reply to a late-locked send makes finalize
+    select and lock inputs before the reply is verified *)
+Lemma late_lock_reserves_before_verifying : exists w slate ttl tip,
+  is_ok (snd (finalize w slate ttl tip true false)) = false
+  /\ exists k m o o', get_out (w_outs w) k m = Some o /\ r_status o = Unspent
+       /\ get_out (w_outs (fst (finalize w slate ttl tip true false))) k m = Some o'
+       /\ r_status o' = Locked.
+Proof.
+  set (w0 := fst (step (fst (step empty_wallet (OpCoinbase 0 1 None)))
+                       (OpRefresh 0 false 5 [((0, 0), None, 1)] []))).
+  set (wA := fst (step w0 (OpInitSend 1 None (mkParams 1000000000 false 5 1 500 1 true 0) true))).
+  exists wA, 1, 0, 5. split; [vm_compute; reflexivity|].
+  exists (0, 0), None. eexists. eexists. vm_compute. repeat split.
+Qed.
+
+(* ------------------------------------------------------------------ C17: expiry step *)
+
+Lemma expire_one_acts_only_when_expired tip w t :
+  (t_ttl t = None \/ exists e, t_ttl t = Some e /\ tip < e) -> expire_one tip w t = w.
+Proof.
+  unfold expire_one. intros [->|(e & -> & Hlt)]; [reflexivity|].
+  destruct (e <=? tip) eqn:E; [lia|reflexivity].
+Qed.
+
+Lemma expire_one_is_cancel tip w t e :
+  t_ttl t = Some e -> e <= tip -> expire_one tip w t = fst (cancel w (Some (t_id t)) None).
+Proof. unfold expire_one. intros -> H. destruct (e <=? tip) eqn:E; [reflexivity|lia]. Qed.
+
+(** a wallet none of whose outstanding entries has reached its cutoff is left alone *)
+Lemma expire_nothing_due w tip :
+  (forall t, In t (w_log w) -> t_parent t = w_active w -> outstanding t = true ->
+     t_ttl t = None \/ exists e, t_ttl t = Some e /\ tip < e) ->
+  expire w tip = w.
+Proof.
+  intros H. unfold expire.
+  assert (Hl : forall l, (forall t, In t l -> t_ttl t = None \/ exists e, t_ttl t = Some e /\ tip < e) ->
+                fold_left (expire_one tip) l w = w).
+  { induction l as [|t r IH]; intros Hl; cbn [fold_left]; [reflexivity|].
+    rewrite expire_one_acts_only_when_expired by (apply Hl; now left).
+    apply IH. intros; apply Hl; now right. }
+  apply Hl. intros t Hin. apply filter_In in Hin as [Hin Hf].
+  apply andb_true_iff in Hf as [Hp Ho]. apply H; auto. lia.
+Qed.
+
+(* ------------------------------------------------------------------ C15: Fresh is an invariant *)
+
+Definition child_le (w w' : wallet) : Prop := forall a, lookup (w_child w) a <= lookup (w_child w') a.
+
+Lemma child_le_refl w : child_le w w. Proof. intros a; lia. Qed.
+Lemma child_le_trans w1 w2 w3 : child_le w1 w2 -> child_le w2 w3 -> child_le w1 w3.
+Proof. intros H1 H2 a. specialize (H1 a). specialize (H2 a). lia. Qed.
+
+Lemma key_below_mono w w' k : child_le w w' -> key_below w k -> key_below w' k.
+Proof. unfold key_below. intros H Hk. specialize (H (fst k)). lia. Qed.
+
+Lemma in_replace_out l x o : In o (replace_out l x) -> o = x \/ In o l.
+Proof.
+  induction l as [|y r IH]; cbn [replace_out]; [intros []|].
+  destruct (okey_eqb y _ _); cbn [In]; intuition.
+Qed.
+Lemma in_insert_out l x o : In o (insert_out l x) -> o = x \/ In o l.
+Proof.
+  induction l as [|y r IH]; cbn [insert_out In]; [intuition|].
+  destruct (okey_ltb _ _ _ _); cbn [In]; intuition.
+Qed.
+Lemma in_save_out l x o : In o (save_out l x) -> o = x \/ In o l.
+Proof. unfold save_out. destruct (get_out _ _ _); [apply in_replace_out|apply in_insert_out]. Qed.
+Lemma in_del_out l k m o : In o (del_out l k m) -> In o l.
+Proof. unfold del_out. intros H. now apply filter_In in H. Qed.
+
+(** "every key of [outs'] is a key of [outs] or satisfies P" style reasoning *)
+Definition keys_ok (P : kid -> Prop) (outs : list orec) : Prop := forall o, In o outs -> P (r_key o).
+
+Lemma keys_ok_save P l x : keys_ok P l -> P (r_key x) -> keys_ok P (save_out l x).
+Proof. intros Hl Hx o Hin. apply in_save_out in Hin as [->|Hin]; auto. Qed.
+Lemma keys_ok_del P l k m : keys_ok P l -> keys_ok P (del_out l k m).
+Proof. intros Hl o Hin. apply in_del_out in Hin. auto. Qed.
+
+Lemma keys_ok_lock_inputs P : forall ins outs id deb outs' deb',
+  keys_ok P outs -> lock_inputs outs ins id deb = Ok (outs', deb') -> keys_ok P outs'.
+Proof.
+  induction ins as [|[[k m] v] r IH]; intros outs id deb outs' deb' Hk H; cbn [lock_inputs] in H.
+  - inversion H; subst; exact Hk.
+  - destruct (get_out outs k m) as [o|] eqn:Eg; [|discriminate]. destruct (lockable _); [|discriminate].
+    eapply IH; [|exact H]. apply keys_ok_save; [exact Hk|].
+    apply get_out_in in Eg as [Hin _]. specialize (Hk o Hin). destruct o; exact Hk.
+Qed.
+
+Lemma keys_ok_add_change P : forall chg outs parent id tip,
+  keys_ok P outs -> (forall k m v, In (k, m, v) chg -> P k) ->
+  keys_ok P (add_change outs chg parent id tip).
+Proof.
+  induction chg as [|[[k m] v] r IH]; intros outs parent id tip Hk Hc; cbn [add_change]; [exact Hk|].
+  apply IH.
+  - apply keys_ok_save; [exact Hk|]. cbn. eapply Hc. now left.
+  - intros k' m' v' Hin. eapply Hc. right; eauto.
+Qed.
+
+Lemma keys_ok_cancel_outputs P outs parent id : keys_ok P outs -> keys_ok P (cancel_outputs outs parent id).
+Proof.
+  intros Hk. unfold cancel_outputs.
+  assert (H : forall l acc, keys_ok P l -> keys_ok P acc -> keys_ok P (fold_left (cancel_one parent id) l acc)).
+  { induction l as [|o r IH]; intros acc Hl Hacc; cbn [fold_left]; [exact Hacc|].
+    apply IH; [intros x Hx; apply Hl; now right|].
+    unfold cancel_one. destruct (cancel_cond parent id o); [|exact Hacc].
+    assert (Po : P (r_key o)) by (apply Hl; now left).
+    destruct (r_status o); try exact Hacc.
+    - now apply keys_ok_del.
+    - apply keys_ok_save; [exact Hacc|]. destruct o; exact Po.
+    - now apply keys_ok_del. }
+  apply H; exact Hk.
+Qed.
+
+Lemma fresh_of w w' :
+  Fresh w -> child_le w w' ->
+  keys_ok (key_below w') (w_outs w') ->
+  (forall c k m v, In c (w_ctxs w') -> In (k, m, v) (c_outs c) -> key_below w' k) ->
+  Fresh w'.
+Proof. intros _ _ H1 H2. split; assumption. Qed.
+
+Lemma fresh_outs_keys w : Fresh w -> keys_ok (key_below w) (w_outs w).
+Proof. intros [H _]. exact H. Qed.
+
+(* --- per operation --- *)
+
+Lemma fresh_build w w2 outs' log' :
+  Fresh w -> child_le w w2 -> w_ctxs w2 = w_ctxs w ->
+  keys_ok (key_below w2) outs' ->
+  Fresh (with_log (with_outs w2 outs') log') /\ child_le w (with_log (with_outs w2 outs') log').
+Proof.
+  intros [Hfo Hfc] Hle Hc Hk. split; [split|].
+  - exact Hk.
+  - intros c k m v Hin1 Hin2. cbn [w_ctxs with_log with_outs] in Hin1. rewrite Hc in Hin1.
+    unfold key_below. cbn [w_child with_log with_outs]. apply (key_below_mono w w2); eauto.
+  - exact Hle.
+Qed.
+
+Lemma receive_fresh w s a t d c :
+  Fresh w -> Fresh (fst (receive w s a t d c)) /\ child_le w (fst (receive w s a t d c)).
+Proof.
+  intros Hf. unfold receive.
+  destruct (check_ttl w t) as [[]|e|q]; cbn [fst]; try (split; [exact Hf|apply child_le_refl]).
+  destruct (existsb _ _); cbn [fst]; try (split; [exact Hf|apply child_le_refl]).
+  destruct (next_child w) as [w1 key] eqn:En.
+  match goal with |- context [next_log_id w1 ?p] => destruct (next_log_id w1 p) as [w2 id] eqn:El end.
+  cbn [fst].
+  pose proof (next_child_fresh _ _ _ Hf En) as (_ & _ & Hkb).
+  assert (Hle : child_le w w1) by (intros x; eapply child_mono_next; eauto).
+  apply next_child_spec in En as (_ & _ & _ & Ho1 & _ & Hc1 & _).
+  apply next_log_id_spec in El as (_ & Ho2 & _ & Hc2 & Hch2 & _).
+  apply fresh_build; auto.
+  - intros x. rewrite Hch2. apply Hle.
+  - congruence.
+  - apply keys_ok_save.
+    + intros o Hin. rewrite Ho2, Ho1 in Hin. unfold key_below. rewrite Hch2.
+      apply (key_below_mono w w1); auto. destruct Hf as [Hfo _]. auto.
+    + cbn. unfold key_below in *. rewrite Hch2. exact Hkb.
+Qed.
+
+Lemma coinbase_fresh w f h key :
+  Fresh w -> Fresh (fst (coinbase w f h key)) /\ child_le w (fst (coinbase w f h key)).
+Proof.
+  intros Hf. unfold coinbase.
+  set (reuse := match key with Some k0 => _ | None => None end).
+  destruct reuse as [kr|] eqn:Er; cbn [fst].
+  - assert (Hb : key_below w kr).
+    { unfold reuse in Er. destruct key as [k0|]; [|discriminate].
+      destruct (get_out (w_outs w) k0 None) as [o0|] eqn:Eg; [|discriminate].
+      destruct (_ && _); [|discriminate]. inversion Er; subst.
+      apply get_out_in in Eg as [Hin [Hk _]]. destruct Hf as [Hfo _]. rewrite <- Hk. auto. }
+    destruct Hf as [Hfo Hfc]. split; [split|intros a; cbn; lia].
+    + cbn [w_outs with_outs]. apply keys_ok_save; [exact Hfo|exact Hb].
+    + exact Hfc.
+  - destruct (next_child w) as [w1 k1] eqn:En. cbn [fst].
+    pose proof (next_child_fresh _ _ _ Hf En) as (_ & _ & Hkb).
+    assert (Hle : child_le w w1) by (intros x; eapply child_mono_next; eauto).
+    apply next_child_spec in En as (_ & _ & _ & Ho1 & _ & Hc1 & _).
+    destruct Hf as [Hfo Hfc]. split; [split|exact Hle].
+    + cbn [w_outs with_outs]. apply keys_ok_save; [|exact Hkb].
+      intros o Hin. rewrite Ho1 in Hin. apply (key_below_mono w w1); auto.
+    + intros c k m v Hin1 Hin2. cbn [w_ctxs with_outs] in Hin1. rewrite Hc1 in Hin1.
+      unfold key_below. cbn [w_child with_outs]. apply (key_below_mono w w1); eauto.
+Qed.
+
+Lemma get_ctx_in w s c : get_ctx w s = Some c -> In c (w_ctxs w).
+Proof. unfold get_ctx. intros H. apply find_some in H as [H _]. exact H. Qed.
+
+Lemma lock_fresh w s t tip :
+  Fresh w -> Fresh (fst (lock w s t tip)) /\ child_le w (fst (lock w s t tip)).
+Proof.
+  intros Hf. unfold lock. destruct (get_ctx w s) as [c|] eqn:Ec; cbn [fst];
+    [|split; [exact Hf|apply child_le_refl]].
+  destruct (existsb _ _); cbn [fst]; [split; [exact Hf|apply child_le_refl]|].
+  unfold next_log_id. cbn zeta. cbn [w_outs with_logid].
+  destruct (lock_inputs _ _ _ _) as [[outs1 deb]|e|q] eqn:El; cbn [fst];
+    try (split; [exact Hf|apply child_le_refl]).
+  destruct Hf as [Hfo Hfc]. split; [split|intros a; cbn; lia].
+  - cbn [w_outs with_files with_log with_outs with_logid].
+    apply keys_ok_add_change.
+    + eapply keys_ok_lock_inputs; [|exact El]. exact Hfo.
+    + intros k m v Hin. apply (Hfc c k m v); [eapply get_ctx_in; exact Ec|exact Hin].
+  - exact Hfc.
+Qed.
+
+Lemma cancel_fresh w id sl :
+  Fresh w -> Fresh (fst (cancel w id sl)) /\ child_le w (fst (cancel w id sl)).
+Proof.
+  intros Hf. unfold cancel.
+  destruct (retrieve_txs w id sl (w_active w)) as [|t [|t2 r]]; cbn [fst];
+    try (split; [exact Hf|apply child_le_refl]).
+  destruct (negb _); cbn [fst]; [split; [exact Hf|apply child_le_refl]|].
+  destruct (t_conf t); cbn [fst]; [split; [exact Hf|apply child_le_refl]|].
+  destruct Hf as [Hfo Hfc]. split; [split|intros a; cbn; lia].
+  - cbn [w_outs with_log with_outs]. now apply keys_ok_cancel_outputs.
+  - exact Hfc.
+Qed.
+
+Lemma expire_fresh w tip : Fresh w -> Fresh (expire w tip) /\ child_le w (expire w tip).
+Proof.
+  unfold expire. generalize (filter (fun t => (t_parent t =? w_active w) && outstanding t) (w_log w)).
+  intros l. revert w. induction l as [|t r IH]; intros w Hf; cbn [fold_left];
+    [split; [exact Hf|apply child_le_refl]|].
+  assert (H1 : Fresh (expire_one tip w t) /\ child_le w (expire_one tip w t)).
+  { unfold expire_one. destruct (t_ttl t); [|split; [exact Hf|apply child_le_refl]].
+    destruct (_ <=? _); [apply cancel_fresh; exact Hf|split; [exact Hf|apply child_le_refl]]. }
+  destruct H1 as [H1 H2]. destruct (IH _ H1) as [H3 H4]. split; [exact H3|].
+  eapply child_le_trans; eauto.
+Qed.
+
+(** refresh never introduces a key *)
+Lemma apply_one_keys parent tip p rev w q P :
+  keys_ok P (w_outs w) -> keys_ok P (w_outs (apply_one parent tip p rev w q)).
+Proof.
+  intros Hk. unfold apply_one.
+  destruct (get_out (w_outs w) (r_key q) (r_mmr q)) as [o|] eqn:Eg; [|exact Hk].
+  assert (Po : P (r_key o)) by (apply get_out_in in Eg as [Hin _]; auto).
+  destruct (present_height p (r_key q) (r_mmr q)) as [h|].
+  - destruct (r_cb o && status_eqb (r_status o) Unconfirmed).
+    + unfold next_log_id. cbn zeta.
+      match goal with |- context [if ?b then _ else _] => destruct b end;
+        [destruct (find _ _)|]; cbn [w_outs with_outs with_log with_logid];
+        (apply keys_ok_save; [exact Hk|destruct o; exact Po]).
+    + match goal with |- context [if ?b then _ else _] => destruct b end;
+        [destruct (find _ _)|]; cbn [w_outs with_outs with_log with_logid];
+        (apply keys_ok_save; [exact Hk|destruct o; exact Po]).
+  - cbn [w_outs with_outs]. apply keys_ok_save; [exact Hk|destruct o; exact Po].
+Qed.
+
+Lemma apply_one_same parent tip p rev w q :
+  w_ctxs (apply_one parent tip p rev w q) = w_ctxs w
+  /\ w_child (apply_one parent tip p rev w q) = w_child w.
+Proof.
+  unfold apply_one. destruct (get_out _ _ _) as [o|]; [|split; reflexivity].
+  destruct (present_height _ _ _).
+  - destruct (r_cb o && _).
+    + unfold next_log_id. cbn zeta.
+      match goal with |- context [if ?b then _ else _] => destruct b end;
+        [destruct (find _ _)|]; split; reflexivity.
+    + match goal with |- context [if ?b then _ else _] => destruct b end;
+        [destruct (find _ _)|]; split; reflexivity.
+  - split; reflexivity.
+Qed.
+
+Lemma refresh_fresh w parent all tip p km :
+  Fresh w -> Fresh (refresh w parent all tip p km) /\ child_le w (refresh w parent all tip p km).
+Proof.
+  intros [Hfo Hfc]. unfold refresh.
+  set (qs := refresh_set w parent all). set (rev := reverted_ids w parent qs p km).
+  assert (Hfold : forall l w0, keys_ok (key_below w) (w_outs w0) -> w_ctxs w0 = w_ctxs w ->
+            w_child w0 = w_child w ->
+            let w1 := fold_left (apply_one parent tip p rev) l w0 in
+            keys_ok (key_below w) (w_outs w1) /\ w_ctxs w1 = w_ctxs w /\ w_child w1 = w_child w).
+  { induction l as [|q r IH]; intros w0 H1 H2 H3; cbn [fold_left]; [auto|].
+    apply IH.
+    - now apply apply_one_keys.
+    - destruct (apply_one_same parent tip p rev w0 q) as [-> _]. exact H2.
+    - destruct (apply_one_same parent tip p rev w0 q) as [_ ->]. exact H3. }
+  assert (Hmid : exists w1, (if tip <? lookup (w_confh w) parent then w else
+      with_confh (with_log (fold_left (apply_one parent tip p rev) qs w)
+        (map (fun t => if existsb (N.eqb (t_id t)) rev && (t_parent t =? parent)
+                       then set_conf (set_ttype t TReverted) false else t)
+             (w_log (fold_left (apply_one parent tip p rev) qs w))))
+        (update (w_confh (fold_left (apply_one parent tip p rev) qs w)) parent tip)) = w1
+      /\ keys_ok (key_below w) (w_outs w1) /\ w_ctxs w1 = w_ctxs w /\ w_child w1 = w_child w).
+  { destruct (tip <? _); [exists w; auto|].
+    eexists; split; [reflexivity|]. cbn [w_outs w_ctxs w_child with_confh with_log].
+    apply Hfold; auto. }
+  destruct Hmid as (w1 & -> & K1 & K2 & K3).
+  unfold clean_old_unconfirmed. destruct (tip <? 50).
+  - split; [split|intros a; rewrite K3; lia].
+    + intros o Hin. unfold key_below. rewrite K3. apply K1; exact Hin.
+    + intros c k m v Hin1 Hin2. rewrite K2 in Hin1. unfold key_below. rewrite K3. eapply Hfc; eauto.
+  - split; [split|intros a; cbn; rewrite K3; lia].
+    + cbn [w_outs with_outs].
+      assert (Hd : forall l acc, keys_ok (key_below w) acc ->
+                keys_ok (key_below w) (fold_left (fun acc o => del_out acc (r_key o) None) l acc)).
+      { induction l as [|o r IH]; intros acc Ha; cbn [fold_left]; [exact Ha|].
+        apply IH. now apply keys_ok_del. }
+      intros o Hin. unfold key_below. cbn [w_child with_outs]. rewrite K3.
+      eapply Hd; [exact K1|exact Hin].
+    + intros c k m v Hin1 Hin2. cbn [w_ctxs with_outs] in Hin1. rewrite K2 in Hin1.
+      unfold key_below. cbn [w_child with_outs]. rewrite K3. eapply Hfc; eauto.
+Qed.
+
+Lemma fresh_child_le w w' :
+  Fresh w -> child_le w w' -> w_outs w' = w_outs w -> w_ctxs w' = w_ctxs w -> Fresh w'.
+Proof.
+  intros [Hfo Hfc] Hle Ho Hc. split.
+  - intros o Hin. rewrite Ho in Hin. apply (key_below_mono w w'); auto.
+  - intros c k m v Hin1 Hin2. rewrite Hc in Hin1. apply (key_below_mono w w'); eauto.
+Qed.
+
+Lemma alloc_change_fresh : forall chg w w' l,
+  Fresh w -> alloc_change w chg = (w', l) ->
+  Fresh w' /\ child_le w w' /\ (forall k m v, In (k, m, v) l -> key_below w' k).
+Proof.
+  induction chg as [|v r IH]; intros w w' l Hf H; cbn [alloc_change] in H.
+  - inversion H; subst. split; [exact Hf|]. split; [apply child_le_refl|intros ? ? ? []].
+  - destruct (next_child w) as [w1 k] eqn:En. destruct (alloc_change w1 r) as [w2 l2] eqn:Ea.
+    inversion H; subst; clear H.
+    pose proof (next_child_fresh _ _ _ Hf En) as (_ & _ & Hkb).
+    assert (Hle1 : child_le w w1) by (intros x; eapply child_mono_next; eauto).
+    pose proof En as En'. apply next_child_spec in En' as (_ & _ & _ & Ho1 & _ & Hc1 & _).
+    assert (Hf1 : Fresh w1) by (eapply fresh_child_le; eauto).
+    destruct (IH _ _ _ Hf1 Ea) as (Hf2 & Hle2 & Hl2).
+    split; [exact Hf2|]. split; [eapply child_le_trans; eauto|].
+    intros k' m' v' [Heq|Hin]; [|eauto]. inversion Heq; subst. eapply key_below_mono; eauto.
+Qed.
+
+Lemma save_ctx_fresh w c :
+  Fresh w -> (forall k m v, In (k, m, v) (c_outs c) -> key_below w k) -> Fresh (save_ctx w c).
+Proof.
+  intros [Hfo Hfc] Hc. split; [exact Hfo|].
+  intros c0 k m v Hin1 Hin2. cbn [w_ctxs save_ctx with_ctxs] in Hin1.
+  destruct Hin1 as [<-|Hin1]; [eapply Hc; eauto|].
+  apply filter_In in Hin1 as [Hin1 _]. unfold key_below. cbn. eapply Hfc; eauto.
+Qed.
+
+Lemma del_ctx_fresh w s : Fresh w -> Fresh (del_ctx w s).
+Proof.
+  intros [Hfo Hfc]. split; [exact Hfo|].
+  intros c k m v Hin1 Hin2. cbn [w_ctxs del_ctx with_ctxs] in Hin1.
+  apply filter_In in Hin1 as [Hin1 _]. unfold key_below. cbn. eapply Hfc; eauto.
+Qed.
+
+Lemma init_send_fresh w s src p late :
+  Fresh w -> Fresh (fst (init_send w s src p late)) /\ child_le w (fst (init_send w s src p late)).
+Proof.
+  intros Hf. unfold init_send. destruct late.
+  - destruct (select_coins_and_fee _ _) as [[[[? ?] ?] ?]|e|q]; cbn [fst];
+      try (split; [exact Hf|apply child_le_refl]).
+    split; [|intros a; cbn; lia]. apply save_ctx_fresh; [exact Hf|]. intros ? ? ? [].
+  - destruct (build_send _ _) as [b|e|q]; cbn [fst]; try (split; [exact Hf|apply child_le_refl]).
+    destruct (alloc_change w (b_changes b)) as [w1 chg] eqn:Ea. cbn [fst].
+    destruct (alloc_change_fresh _ _ _ _ Hf Ea) as (Hf1 & Hle & Hl).
+    split; [|intros a; cbn; apply Hle]. apply save_ctx_fresh; [exact Hf1|]. cbn [c_outs]. exact Hl.
+Qed.
+
+Lemma with_log_files_fresh w l f : Fresh w -> Fresh (with_files (with_log w l) f).
+Proof. intros [A B]. split; [exact A|exact B]. Qed.
+
+Lemma finalize_fresh w s t tip so co :
+  Fresh w -> Fresh (fst (finalize w s t tip so co)) /\ child_le w (fst (finalize w s t tip so co)).
+Proof.
+  intros Hf. unfold finalize.
+  destruct (get_ctx w s) as [c|] eqn:Ec; cbn [fst]; [|split; [exact Hf|apply child_le_refl]].
+  destruct (check_ttl w t) as [[]|e|q]; cbn [fst]; try (split; [exact Hf|apply child_le_refl]).
+  destruct (negb so); cbn [fst]; [split; [exact Hf|apply child_le_refl]|].
+  (* the late-lock part yields some fresh wallet above w *)
+  set (late_result := match c_late c with None => (w, Ok c) | Some la => _ end).
+  assert (Hlate : Fresh (fst late_result) /\ child_le w (fst late_result)).
+  { unfold late_result. destruct (c_late c) as [la|]; cbn [fst]; [|split; [exact Hf|apply child_le_refl]].
+    destruct (build_send _ _) as [b|e|q]; cbn [fst]; try (split; [exact Hf|apply child_le_refl]).
+    destruct (alloc_change w (b_changes b)) as [w1 chg] eqn:Ea.
+    destruct (alloc_change_fresh _ _ _ _ Hf Ea) as (Hf1 & Hle & Hl).
+    destruct (negb _); cbn [fst]; [split; [exact Hf1|exact Hle]|].
+    match goal with |- context [lock ?w2 s t tip] =>
+      assert (Hf2 : Fresh w2) by (apply save_ctx_fresh; [exact Hf1|exact Hl]);
+      pose proof (lock_fresh w2 s t tip Hf2) as [Hf3 Hle3];
+      assert (Hle2 : child_le w w2) by (intros a; cbn; apply Hle);
+      destruct (lock w2 s t tip) as [w3 [[]|e|q]] end; cbn [fst] in *;
+      (split; [exact Hf3|eapply child_le_trans; eauto]). }
+  destruct late_result as [w' [c'|e|q]]; cbn [fst] in *; try exact Hlate.
+  destruct Hlate as [Hf' Hle'].
+  destruct (negb co); cbn [fst]; [split; assumption|].
+  destruct (negb (existsb _ _)); cbn [fst]; [split; assumption|].
+  destruct (find _ _) as [te|]; cbn [fst]; [|split; assumption].
+  split; [|intros a; cbn; apply Hle'].
+  apply del_ctx_fresh. apply with_log_files_fresh. exact Hf'.
+Qed.
+
+(** every operation preserves [Fresh] and never decreases a key counter *)
+Theorem step_fresh w op : Fresh w -> Fresh (fst (step w op)) /\ child_le w (fst (step w op)).
+Proof.
+  intros Hf. destruct op; cbn [step].
+  - pose proof (receive_fresh w slate amount ttl dest crypto_ok Hf).
+    destruct (receive w slate amount ttl dest crypto_ok); exact H.
+  - pose proof (lock_fresh w slate ttl tip Hf). destruct (lock w slate ttl tip); exact H.
+  - pose proof (cancel_fresh w id slate Hf). destruct (cancel w id slate); exact H.
+  - pose proof (coinbase_fresh w fees height key Hf). destruct (coinbase w fees height key); exact H.
+  - cbn [fst]. apply refresh_fresh. exact Hf.
+  - pose proof (init_send_fresh w slate src p late Hf). destruct (init_send w slate src p late); exact H.
+  - pose proof (finalize_fresh w slate ttl tip state_ok crypto_ok Hf).
+    destruct (finalize w slate ttl tip state_ok crypto_ok); exact H.
+  - cbn [fst]. split; [destruct Hf as [A B]; split; [exact A|exact B]|intros x; cbn; lia].
+  - cbn [fst]. apply expire_fresh. exact Hf.
+Qed.
+
+Lemma fresh_empty : Fresh empty_wallet.
+Proof. split; [intros o []|intros c k m v []]. Qed.
+
+Theorem fresh_run : forall ops w, Fresh w -> Fresh (run w ops).
+Proof.
+  induction ops as [|o r IH]; intros w Hf; cbn [run fold_left]; [exact Hf|].
+  apply IH. apply step_fresh. exact Hf.
+Qed.
+
+Theorem fresh_reachable : forall ops, Fresh (run empty_wallet ops).
+Proof. intros ops. apply fresh_run. apply fresh_empty. Qed.
+
+Theorem child_monotone w op a :
+  Fresh w -> lookup (w_child w) a <= lookup (w_child (fst (step w op))) a.
+Proof. intros Hf. destruct (step_fresh w op Hf) as [_ H]. apply H. Qed.
+
+(* ------------------------------------------------------------------ WF is an invariant *)
+
+Lemma nodup_cancel_outputs outs parent id :
+  NoDup (map okey outs) -> NoDup (map okey (cancel_outputs outs parent id)).
+Proof.
+  intros Hn. unfold cancel_outputs.
+  assert (H : forall l acc, NoDup (map okey acc) -> NoDup (map okey (fold_left (cancel_one parent id) l acc))).
+  { induction l as [|o r IH]; intros acc Ha; cbn [fold_left]; [exact Ha|].
+    apply IH. unfold cancel_one. destruct (cancel_cond parent id o); [|exact Ha].
+    destruct (r_status o); try exact Ha; [now apply nodup_del|now apply nodup_save|now apply nodup_del]. }
+  now apply H.
+Qed.
+
+Lemma apply_one_wf parent tip p rev w q : WF w -> WF (apply_one parent tip p rev w q).
+Proof.
+  unfold WF, apply_one. intros Hn.
+  destruct (get_out (w_outs w) (r_key q) (r_mmr q)) as [o|]; [|exact Hn].
+  destruct (present_height p (r_key q) (r_mmr q)) as [h|].
+  - destruct (r_cb o && status_eqb (r_status o) Unconfirmed).
+    + unfold next_log_id. cbn zeta.
+      match goal with |- context [if ?b then _ else _] => destruct b end;
+        [destruct (find _ _)|]; cbn [w_outs with_outs with_log with_logid]; now apply nodup_save.
+    + match goal with |- context [if ?b then _ else _] => destruct b end;
+        [destruct (find _ _)|]; cbn [w_outs with_outs with_log with_logid]; now apply nodup_save.
+  - cbn [w_outs with_outs]. now apply nodup_save.
+Qed.
+
+Lemma refresh_wf w parent all tip p km : WF w -> WF (refresh w parent all tip p km).
+Proof.
+  intros Hn. unfold refresh.
+  set (qs := refresh_set w parent all). set (rev := reverted_ids w parent qs p km).
+  assert (Hfold : forall l w0, WF w0 -> WF (fold_left (apply_one parent tip p rev) l w0)).
+  { induction l as [|q r IH]; intros w0 H0; cbn [fold_left]; [exact H0|].
+    apply IH. now apply apply_one_wf. }
+  match goal with |- WF (clean_old_unconfirmed ?x tip) => assert (H1 : WF x); [|generalize dependent x; intros w1 H1] end.
+  { destruct (tip <? _); [exact Hn|]. unfold WF. cbn [w_outs with_confh with_log]. now apply Hfold. }
+  unfold clean_old_unconfirmed. destruct (tip <? 50); [exact H1|].
+  unfold WF. cbn [w_outs with_outs].
+  assert (Hd : forall l acc, NoDup (map okey acc) ->
+            NoDup (map okey (fold_left (fun acc o => del_out acc (r_key o) None) l acc))).
+  { induction l as [|o r IH]; intros acc Ha; cbn [fold_left]; [exact Ha|]. apply IH. now apply nodup_del. }
+  now apply Hd.
+Qed.
+
+Theorem step_wf w op : WF w -> WF (fst (step w op)).
+Proof.
+  intros Hn. destruct op; cbn [step].
+  - unfold receive. destruct (check_ttl w ttl) as [[]|e|q]; cbn [fst]; try exact Hn.
+    destruct (existsb _ _); cbn [fst]; [exact Hn|].
+    destruct (next_child w) as [w1 key] eqn:En.
+    match goal with |- context [next_log_id w1 ?p] => destruct (next_log_id w1 p) as [w2 id] eqn:El end.
+    cbn [fst]. apply next_child_spec in En as (_ & _ & _ & Ho1 & _).
+    apply next_log_id_spec in El as (_ & Ho2 & _).
+    unfold WF. cbn [w_outs with_log with_outs]. apply nodup_save. rewrite Ho2, Ho1. exact Hn.
+  - destruct (lock w slate ttl tip) as [w' r] eqn:E. cbn [fst]. eapply lock_wf; eauto.
+  - unfold cancel. destruct (retrieve_txs w id slate (w_active w)) as [|t [|t2 r]]; cbn [fst]; try exact Hn.
+    destruct (negb _); cbn [fst]; [exact Hn|]. destruct (t_conf t); cbn [fst]; [exact Hn|].
+    unfold WF. cbn [w_outs with_log with_outs]. now apply nodup_cancel_outputs.
+  - unfold coinbase. set (reuse := match key with Some k0 => _ | None => None end).
+    destruct reuse; cbn [fst].
+    + unfold WF. cbn [w_outs with_outs]. now apply nodup_save.
+    + destruct (next_child w) as [w1 k1] eqn:En. cbn [fst].
+      apply next_child_spec in En as (_ & _ & _ & Ho1 & _).
+      unfold WF. cbn [w_outs with_outs]. apply nodup_save. rewrite Ho1. exact Hn.
+  - cbn [fst]. now apply refresh_wf.
+  - unfold WF. destruct (init_send_outs w slate src p late) as [H _].
+    destruct (init_send w slate src p late) as [w' r]. cbn [fst] in *. rewrite H. exact Hn.
+  - unfold finalize. destruct (get_ctx w slate) as [c|]; cbn [fst]; [|exact Hn].
+    destruct (check_ttl w ttl) as [[]|e|q]; cbn [fst]; try exact Hn.
+    destruct (negb state_ok); cbn [fst]; [exact Hn|].
+    set (late_result := match c_late c with None => (w, Ok c) | Some la => _ end).
+    assert (Hlate : WF (fst late_result)).
+    { unfold late_result. destruct (c_late c) as [la|]; cbn [fst]; [|exact Hn].
+      destruct (build_send _ _) as [b|e|q]; cbn [fst]; try exact Hn.
+      destruct (alloc_change w (b_changes b)) as [w1 chg] eqn:Ea.
+      apply alloc_change_outs in Ea as (Ho1 & _).
+      assert (Hn1 : WF w1) by (unfold WF; rewrite Ho1; exact Hn).
+      destruct (negb _); cbn [fst]; [exact Hn1|].
+      match goal with |- context [lock ?w2 slate ttl tip] =>
+        assert (Hn2 : WF w2) by exact Hn1;
+        destruct (lock w2 slate ttl tip) as [w3 r3] eqn:El;
+        pose proof (lock_wf _ _ _ _ _ _ Hn2 El) as Hn3 end.
+      destruct r3; cbn [fst]; exact Hn3. }
+    destruct late_result as [w' [c'|e|q]]; cbn [fst] in *; try exact Hlate.
+    destruct (negb crypto_ok); cbn [fst]; [exact Hlate|].
+    destruct (negb (existsb _ _)); cbn [fst]; [exact Hlate|].
+    destruct (find _ _); cbn [fst]; exact Hlate.
+  - cbn [fst]. exact Hn.
+  - cbn [fst]. unfold expire.
+    generalize (filter (fun t => (t_parent t =? w_active w) && outstanding t) (w_log w)).
+    intros l. revert w Hn. induction l as [|t r IH]; intros w Hn; cbn [fold_left]; [exact Hn|].
+    apply IH. unfold expire_one. destruct (t_ttl t); [|exact Hn]. destruct (_ <=? _); [|exact Hn].
+    unfold cancel. destruct (retrieve_txs w _ _ _) as [|t1 [|t2 r2]]; cbn [fst]; try exact Hn.
+    destruct (negb _); cbn [fst]; [exact Hn|]. destruct (t_conf t1); cbn [fst]; [exact Hn|].
+    unfold WF. cbn [w_outs with_log with_outs]. now apply nodup_cancel_outputs.
+Qed.
+
+Theorem wf_reachable : forall ops, WF (run empty_wallet ops).
+Proof.
+  intros ops. assert (H : forall ops w, WF w -> WF (run w ops)).
+  { induction ops0 as [|o r IH]; intros w Hw; cbn [run fold_left]; [exact Hw|]. apply IH. now apply step_wf. }
+  apply H. unfold WF. cbn. constructor.
 Qed.
